@@ -35,12 +35,27 @@ ASSUMPTIONS = [
     "Mid-circuit state preparations act on wires still in |0> (their decomposition is only defined there).",
     "No mid-circuit measurements (C21/C43 cover the mcm transforms); mcm_method only selects the pipeline.",
 ]
-BUDGET = {"quick": {"examples": 360}, "thorough": {"examples": 24000, "shards": 16}}
+BUDGET = {"quick": {"examples": 320}, "thorough": {"examples": 24000, "shards": 16}}
 SHRINK_LISTS = ("ops", "meas")
 
 DEVICES = ["default.qubit", "default.mixed", "reference.qubit", "default.clifford", "default.tensor", "null.qubit"]
 CLIFFORD_NATIVE = {"PauliX": (0, 1), "PauliY": (0, 1), "PauliZ": (0, 1), "Hadamard": (0, 1), "S": (0, 1), "SX": (0, 1),
                    "CNOT": (0, 2), "SWAP": (0, 2), "ISWAP": (0, 2), "CY": (0, 2), "CZ": (0, 2)}
+def _sub(names):
+    return {k: gen.ALL_GATES[k] for k in names.split()}
+
+
+# gates each device documents as natively supported (module-level `operations` tables / "any operation with a matrix")
+NATIVE = {
+    "default.qubit": None, "null.qubit": None, "default.clifford": CLIFFORD_NATIVE,
+    "reference.qubit": _sub("PauliX PauliY PauliZ Hadamard CNOT CZ RX RY RZ"),
+    "default.mixed": _sub("PauliX PauliY PauliZ Hadamard S T SX CNOT SWAP ISWAP CSWAP Toffoli CCZ CY CZ CH PhaseShift ControlledPhaseShift "
+                          "CPhaseShift00 CPhaseShift01 CPhaseShift10 RX RY RZ Rot CRX CRY CRZ CRot SingleExcitation SingleExcitationPlus "
+                          "SingleExcitationMinus DoubleExcitation DoubleExcitationPlus DoubleExcitationMinus OrbitalRotation FermionicSWAP ECR"),
+    "default.tensor": _sub("PauliX PauliY PauliZ Hadamard S T SX CNOT SWAP ISWAP PSWAP SISWAP CSWAP Toffoli CY CZ PhaseShift "
+                           "ControlledPhaseShift RX RY RZ Rot CRX CRY CRZ CRot IsingXX IsingYY IsingZZ IsingXY SingleExcitation "
+                           "SingleExcitationPlus SingleExcitationMinus DoubleExcitation OrbitalRotation ECR"),
+}
 CLIFFORD_MORE = {**CLIFFORD_NATIVE, "ECR": (0, 2), "CH": (0, 2), "T": (0, 1), "RZ": (1, 1), "Toffoli": (0, 3), "CSWAP": (0, 3)}
 
 
@@ -166,6 +181,8 @@ def _meas_list(draw, wires, dev, has_dev_wires, rich):
     if n >= 2:
         opts.append(st.permutations(wires).flatmap(lambda p: st.integers(1, n - 1).map(
             lambda k: {"mp": "mutual_info", "w0": list(p)[:k], "w1": list(p)[k:]})))
+    if dev == "default.tensor" and draw(st.sampled_from([True, True, True, False])):
+        opts = opts[:3] + ([st.just({"mp": "state"})] if has_dev_wires else [])     # what default.tensor documents: expval, var, state
     return draw(st.lists(st.one_of(*opts), min_size=1, max_size=3)), False
 
 
@@ -179,7 +196,7 @@ def _case(draw, tier):
         pool = CLIFFORD_NATIVE if native else draw(st.sampled_from([CLIFFORD_NATIVE, CLIFFORD_MORE, CLIFFORD_MORE]))
         rich = not native and draw(st.booleans())
     else:
-        pool = None
+        pool = NATIVE[dev] if native else None
         rich = not native
     ops, batch = draw(_ops(wires, pool, rich, 8 if tier == "thorough" else 6, stab=(dev == "default.clifford"), tensor=(dev == "default.tensor")))
     devw = draw(st.sampled_from(["none", "same", "perm", "extra", "extra"] + ([] if native else ["missing"])))
@@ -421,6 +438,10 @@ def check(spec):
         expected = _ref_tape(tape, order)
     if spec.get("unsup_obs"):      # expval of a non-Hermitian operator has no documented value: structure + execution only
         return Result(nontrivial, labels=labels + ["accepted-nonhermitian-obs"])
+    if dev_wires is not None and not set(tape.wires) <= set(dev_wires):
+        # accepted although the input names an off-device wire: the wire vanished in decomposition (e.g. a BasisState bit 0);
+        # the outputs are on the device (checked above), results of the input on a wire the device lacks are undefined
+        return Result(nontrivial, labels=labels + ["off-device-wire-vanished"])
     ref_out = []
     for t in batch:
         o = list(dev_wires) if dev_wires else _standard_order(t)
